@@ -1,12 +1,61 @@
 //! C01 — ops evaluated on the real code and the generator of their inputs.
+//!
+//!   repr_obs <desc>  =>  [order [vertices] [arcs]]     build through the public API, observe
 #![allow(unused_imports, dead_code, clippy::all)]
 
 use crate::graphs::{self, Desc};
 use crate::rng::Rng;
 use crate::value::V;
 
-pub fn eval(_op: &str, _args: &[V]) -> Option<Vec<V>> {
-    None
+pub fn eval(op: &str, args: &[V]) -> Option<Vec<V>> {
+    match op {
+        "repr_obs" => {
+            let [d] = args else { return None };
+            let desc = Desc::parse(d)?;
+            Some(vec![match desc.repr.as_str() {
+                "al" => graphs::observe(&desc.build_al()),
+                "am" => graphs::observe(&desc.build_am()),
+                "mx" => graphs::observe(&desc.build_mx()),
+                "el" => graphs::observe(&desc.build_el()),
+                "wu" => {
+                    let d = desc.build_wu();
+                    V::L(vec![
+                        V::u(graaf::Order::order(&d)),
+                        V::us(graaf::Vertices::vertices(&d)),
+                        V::L(graaf::ArcsWeighted::arcs_weighted(&d)
+                            .map(|(u, v, w)| V::L(vec![V::u(u), V::u(v), V::u(*w)]))
+                            .collect()),
+                    ])
+                }
+                "wi" => {
+                    let d = desc.build_wi();
+                    V::L(vec![
+                        V::u(graaf::Order::order(&d)),
+                        V::us(graaf::Vertices::vertices(&d)),
+                        V::L(graaf::ArcsWeighted::arcs_weighted(&d)
+                            .map(|(u, v, w)| V::L(vec![V::u(u), V::u(v), V::i(*w)]))
+                            .collect()),
+                    ])
+                }
+                _ => return None,
+            }])
+        }
+        _ => None,
+    }
 }
 
-pub fn gen(_rng: &mut Rng, _thorough: bool, _emit: &mut dyn FnMut(String)) {}
+pub fn gen(rng: &mut Rng, thorough: bool, emit: &mut dyn FnMut(String)) {
+    let n = if thorough { 3000 } else { 300 };
+    for _ in 0..n {
+        for repr in graphs::UNWEIGHTED {
+            let (_, d) = graphs::gen_desc(rng, repr, 130);
+            emit(format!("repr_obs {}", d.to_v()));
+        }
+        let (_, d) = graphs::gen_am_sparse(rng, 12);
+        emit(format!("repr_obs {}", d.to_v()));
+        let (_, d) = graphs::gen_wdesc(rng, "wi", 60, -5, 9);
+        emit(format!("repr_obs {}", d.to_v()));
+        let (_, d) = graphs::gen_wdesc(rng, "wu", 60, 0, 9);
+        emit(format!("repr_obs {}", d.to_v()));
+    }
+}
